@@ -1542,6 +1542,7 @@ class EdgeQLSourceGenerator(codegen.SourceGenerator):
             len(node.commands) == 1
             and isinstance(node.commands[0], qlast.SetField)
             and node.commands[0].name == 'expr'
+            and node.commands[0].value is not None
         ):
 
             self._visit_CreateObject(node, 'ALIAS', render_commands=False)
